@@ -406,6 +406,187 @@ def unit_poly_wait(eng, shape, settled):
     return verify(eng, name, run, post, func="deferred.LinearPolynomial._wait")
 
 
+NESTED_SHAPES = {
+    # name: (variables of q1, variables of q2, direct promise keys of p)   - d1, d2 are Deferreds whose bodies yield the polynomials q1, q2
+    "diamond": ((0,), (0,), ()),            # c = a - b with a, b both over x  (the coefficients of x must ADD UP)
+    "diamond+direct": ((0, 1), (0,), (0,)),
+    "disjoint": ((0,), (1,), ()),
+    "chain": ((0, 1), (), (2,)),
+    "constant-body": ((), (), (0,)),
+}
+
+
+def unit_poly_wait_nested(eng, shape, settled):
+    """LinearPolynomial._wait on keys that are Deferreds whose value is itself a polynomial (symbols defined through other forward symbols):
+    the re-simplification must preserve the view - coefficients of a variable reached along two routes add up - and the result must keep the
+    representation invariant; with every variable known the value is V(p)(final)."""
+    name = "LinearPolynomial._wait[nested:%s,settled=%s]" % (shape, settled)
+    q1v, q2v, direct = NESTED_SHAPES[shape]
+
+    def run(eng):
+        real(eng)
+        vs = [poly_var(eng, "x%d" % i)[0] for i in range(3)]
+        ds = []
+        for j, qv in enumerate((q1v, q2v)):
+            q = mk_poly(eng, [vs[i] for i in qv], "q%d" % (j + 1))
+            d = new_deferred(eng, INT, counter_fn(eng, q, []))
+            d.attrs["_sigma"] = poly_value(eng, q)
+            ds.append(d)
+        p = mk_poly(eng, ds + [vs[i] for i in direct], "p")
+        eng.I.update(pv=poly_value(eng, p), p=p)
+        if settled:
+            for v in vs:
+                eng.call(eng.getattr(v, "settle"), [v.attrs["_sigma"]], {})
+        tc = eng.resolve_global(eng.load_module("deferred"), "try_compute")
+        eng.call(eng.getattr(tc, "__enter__"), [], {})
+        try:
+            return eng.call(eng.getattr(p, "wait"), [], {})
+        finally:
+            eng.call(eng.getattr(tc, "__exit__"), [None, None, None], {})
+
+    def post(eng, o):
+        p = eng.I["p"]
+        used = set(q1v) | set(q2v) | set(direct)
+        if settled or not used:
+            eng.prove("all-variables-known:wait-returns-the-polynomial's-value(coefficients reached along two routes add up)",
+                      z3.And(o[0] == "return", o[1] == eng.I["pv"]) if o[0] == "return" else False)
+        else:
+            # a variable may cancel (coefficient sum 0): then the value is known and returning it is right; otherwise not-ready
+            if o[0] == "return":
+                eng.prove("returned-early-only-with-the-right-value", o[1] == eng.I["pv"])
+            else:
+                eng.prove("an-unknown-variable:not-ready(never a wrong value)", o[0] == "raise" and o[1].cls == "NotReadyError")
+            eng.prove("re-simplification-preserves-the-view:V(p)-unchanged-for-every-valuation", poly_value(eng, p) == eng.I["pv"])
+            rep_inv(eng, p, "simplified-polynomial")
+        eng.prove("module-state-restored", module_state(eng) == (0, 0))
+    r = verify(eng, name, run, post, func="deferred.LinearPolynomial._wait")
+    for o_ in r["obligations"]:
+        o_["cfg"] = dict(kind="poly-nested", shape=shape, settled=settled)
+    return r
+
+
+SELFREF_SHAPES = {
+    # name: (does the alias body q mention v, is v itself a direct key of p)
+    "alias-and-self": (True, True),      # .link K + x - s   with x = e defined before e:  (v = the base being computed)
+    "alias-only": (True, False),
+    "self-only": (False, True),
+}
+
+
+def unit_poly_wait_selfref(eng, shape):
+    """the link-base situation: a Deferred v whose own body waits for a polynomial p that mentions v - directly and/or through a forward alias d
+    whose value is a polynomial over v.  C12: when the dependence on v cancels the value is the arithmetic value of the expression; when it
+    genuinely remains, DeferredCycle (reported by the caller as recursive-definition) - never some arbitrary value."""
+    name = "LinearPolynomial._wait[self-reference:%s]" % shape
+    q_has_v, direct = SELFREF_SHAPES[shape]
+
+    def run(eng):
+        real(eng)
+        cell = {}
+        v = new_deferred(eng, INT, Builtin("base-expression-body", lambda e: e.call(dcls(e, "wait"), [cell["p"]], {})))
+        sig = int_input(eng, "sigma_v")
+        v.attrs["_sigma"] = sig
+        other = poly_var(eng, "x1")[0]
+        eng.call(eng.getattr(other, "settle"), [other.attrs["_sigma"]], {})
+        q = mk_poly(eng, ([v] if q_has_v else []) + [other], "q")
+        d = new_deferred(eng, INT, counter_fn(eng, q, []))
+        d.attrs["_sigma"] = poly_value(eng, q)
+        p = mk_poly(eng, [d] + ([v] if direct else []), "p")
+        cell["p"] = p
+        a = q.attrs["coeffs"].get(v, 0)
+        net = p.attrs["coeffs"][d] * a + (p.attrs["coeffs"].get(v, 0))
+        # the value with the v-terms removed (what the expression equals when they cancel)
+        rest = poly_value(eng, p) - net * sig
+        eng.I.update(net=net, rest=rest)
+        return eng.call(eng.getattr(v, "wait"), [], {})
+
+    def post(eng, o):
+        net, rest = eng.I["net"], eng.I["rest"]
+        cancels = eng.branch(net == 0) if is_sym(net) else net == 0
+        if cancels:
+            eng.prove("self-dependence-cancels:the-value-is-the-arithmetic-value-of-the-expression(no error)", z3.And(o[0] == "return", o[1] == rest) if o[0] == "return" else False)
+        else:
+            eng.prove("genuine-self-dependence:DeferredCycle(reported as recursive-definition)-never-a-value", o[0] == "raise" and o[1].cls == "DeferredCycle")
+        eng.prove("module-state-restored", module_state(eng) == (0, 0))
+    r = verify(eng, name, run, post, func="deferred.LinearPolynomial._wait")
+    for o_ in r["obligations"]:
+        o_["cfg"] = dict(kind="poly-selfref", shape=shape)
+    return r
+
+
+def replay_poly_selfref(cfg, witness, tree):
+    from pyvc import driver
+    q_has_v, direct = SELFREF_SHAPES[cfg["shape"]]
+    w = {k: int(v) for k, v in (witness or {}).items() if isinstance(v, (int, str)) and str(v).lstrip("-").isdigit()}
+    code = """
+from pdpy11.deferred import Deferred, Promise, LinearPolynomial, wait, DeferredCycle
+w = %r
+g = lambda k, d=1: w.get(k, d)
+cell = {}
+v = Deferred(int, lambda: wait(cell["p"]))
+other = Promise[int]("x1"); other.settle(g("sigma_x1", 5))
+qc = {}
+keys = ([v] if %r else []) + [other]
+for n, k in enumerate(keys):
+    qc[k] = g("q_c%%d" %% n)
+q = LinearPolynomial[int](qc, g("q_k", 0))
+d = Deferred(int, lambda: q)
+pk = [d] + ([v] if %r else [])
+p = LinearPolynomial[int]({k: g("p_c%%d" %% n) for n, k in enumerate(pk)}, g("p_k", 0))
+cell["p"] = p
+a = qc.get(v, 0)
+net = g("p_c0") * a + (g("p_c1") if %r else 0)
+rest = g("p_k", 0) + g("p_c0") * (g("q_k", 0) + qc[other] * g("sigma_x1", 5))
+try:
+    got = ("return", v.wait())
+except DeferredCycle:
+    got = ("DeferredCycle", None)
+want = ("return", rest) if net == 0 else ("DeferredCycle", None)
+result = dict(net_coefficient_of_v=net, want=want, got=got, ok=(tuple(got) == tuple(want)))
+""" % (w, q_has_v, direct, direct)
+    jobs = [dict(kind="py", code=code)]
+    res = driver.native(jobs, tree)
+    r = res[0].get("result") or res[0]
+    return dict(jobs=jobs, observed=r, reproduced=isinstance(r, dict) and r.get("ok") is False)
+
+
+def replay_poly_nested(cfg, witness, tree):
+    """the same call on the real deferred.py with the witness's coefficients: p.wait() speculatively, then settle and wait for real"""
+    from pyvc import driver
+    q1v, q2v, direct = NESTED_SHAPES[cfg["shape"]]
+    w = {k: int(v) for k, v in (witness or {}).items() if isinstance(v, (int, str)) and str(v).lstrip("-").isdigit()}
+    code = """
+from pdpy11.deferred import Deferred, Promise, LinearPolynomial, try_compute, wait, NotReadyError
+w = %r
+g = lambda k, d=1: w.get(k, d)
+xs = [Promise[int]("x%%d" %% i) for i in range(3)]
+sig = [g("sigma_x%%d" %% i, 7 + i) for i in range(3)]
+qs, ds = [], []
+for j, qv in enumerate(%r):
+    q = LinearPolynomial[int]({xs[i]: g("q%%d_c%%d" %% (j + 1, n)) for n, i in enumerate(qv)}, g("q%%d_k" %% (j + 1), 0))
+    qs.append(q)
+    d = Deferred(int, (lambda q=q: q)); ds.append(d)
+keys = ds + [xs[i] for i in %r]
+p = LinearPolynomial[int]({k: g("p_c%%d" %% n) for n, k in enumerate(keys)}, g("p_k", 0))
+def val(q):
+    return q.constant_term + sum(c * sig[xs.index(k)] for k, c in q.coeffs.items())
+want = g("p_k", 0) + sum(g("p_c%%d" %% n) * (val(qs[n]) if n < 2 else sig[xs.index(k)]) for n, k in enumerate(keys))
+early = None
+if not %r:
+    with try_compute:
+        early = p.wait()
+for x, s in zip(xs, sig):
+    if not x.settled:
+        x.settle(s)
+got = wait(p)
+result = dict(want=want, got=got, early=repr(early), ok=(got == want and (early is None or early == want)))
+""" % (w, (q1v, q2v), direct, bool(cfg["settled"]))
+    jobs = [dict(kind="py", code=code)]
+    res = driver.native(jobs, tree)
+    r = res[0].get("result") or res[0]
+    return dict(jobs=jobs, observed=r, reproduced=isinstance(r, dict) and r.get("ok") is False)
+
+
 def unit_promise(eng):
     out = []
 
@@ -467,4 +648,9 @@ def all_units():
             us.append(("poly[%s,%s]" % (w, sh), "unit_poly_scalar", dict(which=w, shape=sh)))
     for sh, st in (((), ()), ((0,), (0,)), ((0,), ()), ((0, 1), (0, 1)), ((0, 1), (0,)), ((0,), (1,))):
         us.append(("poly-wait[%s,%s]" % (sh, st), "unit_poly_wait", dict(shape=sh, settled=st)))
+    for sh in NESTED_SHAPES:
+        for st in (False, True):
+            us.append(("poly-wait-nested[%s,%s]" % (sh, st), "unit_poly_wait_nested", dict(shape=sh, settled=st)))
+    for sh in SELFREF_SHAPES:
+        us.append(("poly-wait-selfref[%s]" % sh, "unit_poly_wait_selfref", dict(shape=sh)))
     return us
